@@ -20,4 +20,6 @@ EXTRAS = [
     lambda rep, fb, tier: __import__("vf.rules.canon", fromlist=["x"]).rule_canon(rep, fb),
     lambda rep, fb, tier: __import__("vf.rules.records", fromlist=["x"]).rule_regular_length(rep, fb),
     lambda rep, fb, tier: __import__("vf.rules.methodrules", fromlist=["x"]).rule_option_shifts(rep, fb),
+    lambda rep, fb, tier: __import__("vf.rules.lints", fromlist=["x"]).rule_clip_flag(rep, fb),
+    lambda rep, fb, tier: __import__("vf.rules.lints", fromlist=["x"]).rule_record_rebuild_length(rep, fb),
 ]
